@@ -24,6 +24,7 @@ func init() {
 			{"C08.R5", "q", "who may write node summaries", c08r5},
 			{"C08.R6", "q", "key hash reconstruction parameters", c08r6},
 			{"C08.R7", "q", "no hash bits lost in a leaf", c08r7},
+			{"C08.R8", "q", "leaf entry geometry agrees across set/get/remove/iterate/find", c08r8},
 			{"C10.R1", "q", "shared: the value hash entering the tree is taken before compression", c10r1},
 		},
 	})
@@ -616,5 +617,124 @@ func c08r7(c *Ctx) {
 			}
 		}
 		c.check(okG, R, f.Key+": rejects depth+height > MAX_DEPTH", f.Pos(), "panic guard", "newHTree accepts trees deeper than the width table")
+	}
+}
+
+// c08r8: every function that walks a leaf uses the same entry geometry: the
+// item starts TreeKeyHashLen bytes into the entry and entries are
+// TreeKeyHashLen + TREE_ITEM_HEAD_SIZE bytes apart.
+func c08r8(c *Ctx) {
+	const R = "C08.R8"
+	isKLen := func(f *prog.Func, e ast.Expr, at ast.Node) bool {
+		info := f.Info()
+		if prog.IsField(info, "store.HtreeDerivedConfig.TreeKeyHashLen")(prog.Unparen(e)) {
+			return true
+		}
+		for _, s := range f.SourcesAt(e, at) {
+			if s.Kind == "global" && s.Field == "TreeKeyHashLen" || (s.Expr != nil && prog.IsField(info, "store.HtreeDerivedConfig.TreeKeyHashLen")(prog.Unparen(s.Expr))) {
+				continue
+			}
+			return false
+		}
+		return true
+	}
+	for _, k := range []string{"store.SliceHeader.Set", "store.SliceHeader.Remove", "store.SliceHeader.Get", "store.SliceHeader.Iter"} {
+		f := c.fn(R, k)
+		if f == nil {
+			continue
+		}
+		info := f.Info()
+		n := 0
+		for _, call := range f.CallsTo("store.bytesToItem", "store.itemToBytes") {
+			n++
+			// first argument: leaf[<entry start> + klen:]  or  dst[klen:]
+			se, ok := prog.Unparen(call.Expr.Args[0]).(*ast.SliceExpr)
+			okOff := false
+			if ok && se.Low != nil {
+				low := prog.Unparen(se.Low)
+				if be, isB := low.(*ast.BinaryExpr); isB && be.Op == token.ADD {
+					okOff = isKLen(f, be.Y, call.Expr) || isKLen(f, be.X, call.Expr)
+				} else {
+					okOff = isKLen(f, low, call.Expr)
+				}
+			}
+			c.check(okOff, R, f.Key+": item at entry offset TreeKeyHashLen ("+short(call.Key)+")", call.Pos(), "slice starts at +TreeKeyHashLen",
+				"the tree item is read/written at an entry offset other than the configured key-hash width: it overlaps the stored key hash, so positions/versions read back differ from what was stored")
+		}
+		if n == 0 {
+			c.undec(R, f.Key, "no item codec call found")
+		}
+		_ = info
+	}
+	// stride = klen + TREE_ITEM_HEAD_SIZE wherever a stride is computed
+	for _, k := range []string{"store.SliceHeader.Set", "store.SliceHeader.Remove", "store.SliceHeader.Iter", "store.findInBytes"} {
+		f := c.fn(R, k)
+		if f == nil {
+			continue
+		}
+		info := f.Info()
+		found := false
+		ast.Inspect(f.Decl.Body, func(x ast.Node) bool {
+			if be, ok := x.(*ast.BinaryExpr); ok && be.Op == token.ADD && prog.ConstObjName(info, be.Y) == "store.TREE_ITEM_HEAD_SIZE" {
+				// X is klen, or (len(leaf) + klen)
+				xx := prog.Unparen(be.X)
+				if inner, isB := xx.(*ast.BinaryExpr); isB && inner.Op == token.ADD {
+					xx = prog.Unparen(inner.Y)
+				}
+				if isKLen(f, xx, be) {
+					found = true
+				}
+			}
+			return true
+		})
+		c.check(found, R, f.Key+": entry stride = TreeKeyHashLen + TREE_ITEM_HEAD_SIZE", f.Pos(), "stride recognised", "the leaf entry stride is not TreeKeyHashLen + TREE_ITEM_HEAD_SIZE in "+f.Key+": entries are located at the wrong offsets")
+	}
+	if f := c.fn(R, "store.SliceHeader.Remove"); f != nil {
+		info := f.Info()
+		// removal closes the gap by exactly one entry and shrinks the length by the same amount
+		var itemLen types.Object
+		okCopy, okLen := false, false
+		ast.Inspect(f.Decl.Body, func(x ast.Node) bool {
+			switch s := x.(type) {
+			case *ast.CallExpr:
+				if prog.CalleeKey(info, s) == "builtin.copy" && len(s.Args) == 2 {
+					if src, ok := prog.Unparen(s.Args[1]).(*ast.SliceExpr); ok && src.Low != nil {
+						if be, isB := prog.Unparen(src.Low).(*ast.BinaryExpr); isB && be.Op == token.ADD {
+							itemLen = prog.ObjOf(info, be.Y)
+							okCopy = itemLen != nil
+						}
+					}
+				}
+			case *ast.AssignStmt:
+				if s.Tok == token.SUB_ASSIGN && len(s.Lhs) == 1 && prog.IsField(info, "store.SliceHeader.Len")(s.Lhs[0]) && itemLen != nil && prog.ObjOf(info, s.Rhs[0]) == itemLen {
+					okLen = true
+				}
+			}
+			return true
+		})
+		c.check(okCopy && okLen, R, f.Key+": gap closed and length reduced by one entry", f.Pos(), "copy(leaf[idx:], leaf[idx+itemLen:]); Len -= itemLen", "removing an entry does not shift the rest by one entry and shrink the leaf by one entry")
+		// match rule: wildcard chunk (-1) or same offset
+		okMatch := false
+		ast.Inspect(f.Decl.Body, func(x ast.Node) bool {
+			if is, ok := x.(*ast.IfStmt); ok {
+				hasWild, hasOff := false, false
+				ast.Inspect(is.Cond, func(y ast.Node) bool {
+					if be, isB := y.(*ast.BinaryExpr); isB && be.Op == token.EQL {
+						if v, isC := prog.ConstInt(info, be.Y); isC && v == -1 && prog.MentionsField(info, be.X, "store.Position.ChunkID") {
+							hasWild = true
+						}
+						if prog.MentionsField(info, be.X, "store.Position.Offset") && prog.MentionsField(info, be.Y, "store.Position.Offset") {
+							hasOff = true
+						}
+					}
+					return true
+				})
+				if hasWild && hasOff {
+					okMatch = true
+				}
+			}
+			return true
+		})
+		c.check(okMatch, R, f.Key+": removes on wildcard chunk (-1) or equal offset", f.Pos(), "ChunkID == -1 || Offset == Offset", "the remove condition changed: tombstone replay (ChunkID -1) no longer removes the slot, or a remove with a stale position removes a newer entry")
 	}
 }
